@@ -463,6 +463,43 @@ pub fn generate_c12<W: Write>(c: &mut Cases<W>, rng: &mut Rng, thorough: bool) {
                 c.end();
             }
         }
+        // ---- reader: a full scan of a deep file (index_levels 3), every seek and read
+        if i % 3 == 0 {
+            let cfg = FileCfg { codec: CompressionType::None, level: 0, block_size: 40 + (i % 30), unclamped: true, interval: Some(1 + i % 3), levels: 3 };
+            let es: Vec<(Vec<u8>, Vec<u8>)> = (0..90u32).map(|x| (format!("key{:05}", x * 3).into_bytes(), vec![x as u8; (x % 5) as usize])).collect();
+            if let WriteOutcome::File(file) = write_file(&cfg, &es) {
+                let backward = i % 6 == 0;
+                let mut ops: Vec<(usize, Op)> = vec![(0, if backward { Op::Last } else { Op::First })];
+                for _ in 0..es.len() {
+                    ops.push((0, if backward { Op::Prev } else { Op::Next }));
+                }
+                let ctl0 = Ctl::new();
+                let free = run_history_ctl(&file, &ops, ctl0.clone());
+                let (nreads, nseeks) = (ctl0.reads.get(), ctl0.seeks.get());
+                let read_load = ctl0.read_load.borrow().clone();
+                c.begin("rfault");
+                c.line("prop C12");
+                c.line(&cfg.line());
+                c.line(&format!("file {}", hex(&file)));
+                for (cid, op) in &ops {
+                    c.line(&format!("op {} {}", cid, crate::c_hist::op_token(op)));
+                }
+                c.line(&format!("free {}", free.0));
+                for (kind, total) in [(3u8, nseeks), (2u8, nreads)] {
+                    for k in 0..total {
+                        let ctl = Ctl::new();
+                        ctl.fault.set(Some((kind, k)));
+                        let (_digest, failed) = run_history_ctl(&file, &ops, ctl.clone());
+                        let fired = ctl.fired_at.get().map(|x| x.to_string()).unwrap_or("-".into());
+                        let load = if kind == 3 { if k < 2 { -1i64 } else { k as i64 - 2 } } else { read_load[k as usize] as i64 - 1 };
+                        c.line(&format!("f {} {} load {} = {} fired {}", if kind == 3 { "seek" } else { "read" }, k, load, failed, fired));
+                        c.bump("faults.reader_scan", 1);
+                    }
+                }
+                c.nontrivial(&fnv(&file).to_le_bytes());
+                c.end();
+            }
+        }
         // ---- sorter: every create, every merge call; chunk storage faults (spec only)
         {
             let scfg = gen_cfg_sorter(rng);
